@@ -463,6 +463,17 @@ func (w *c09World) active(c int, visiting map[int]bool) bool {
 	return false
 }
 
+// authorised: does the record authorise key k to update d right now (k is a capabilityInvocation key of the latest version
+// of an active controller of d's latest version - whichever document that is)?
+func (w *c09World) authorised(d *c09DID, k int) bool {
+	for _, c := range w.controllers(d) {
+		if c09In(w.dids[c].latest().spec.capKeys(), k) {
+			return true
+		}
+	}
+	return false
+}
+
 // simple: the document resolves as active from its own content alone (no controllers, or it lists itself), which is the
 // only situation in which the code under test can establish activity from a single source transaction.
 func (w *c09World) simple(c int) bool {
@@ -2300,6 +2311,12 @@ func (w *c09World) fork(i int, ev c09Event) {
 			o := &c09Offer{label: fmt.Sprintf("event %d fork:%s", i, c.name), op: "addkey", class: "forked-deactivated-controller", di: t.idx, target: t.id, newKey: -1,
 				spec: spec, specExact: true, payload: w.encode(w.rawDoc(t.id, spec)), signKey: c.key, kid: kidA(c.key), embed: -1, prevs: refs,
 				mustReject: "accepted-unauthorised:forked-deactivated-controller", keys: []int{attacker, c.key}}
+			if w.authorised(t, c.key) {
+				// the target lists this very key for capability invocation in a document that still controls it (key re-use
+				// across documents): A's deactivation does not take that away, nothing is demanded
+				o.mustReject, o.class = "", "fork-key-authorised-by-another-controller"
+				x.Class("fork:key-authorised-by-another-controller")
+			}
 			x.Class("offer:" + o.class)
 			x.Class("fork-offer:" + c.name)
 			w.offer(o)
@@ -2358,6 +2375,11 @@ func (w *c09World) fork(i int, ev c09Event) {
 			o := &c09Offer{label: fmt.Sprintf("event %d fork:proxy", i), op: "addkey", class: class, di: t.idx, target: t.id, newKey: -1,
 				spec: spec, specExact: true, payload: w.encode(w.rawDoc(t.id, spec)), signKey: k, kid: proxy.id + "#" + keys[k].frag, embed: -1, prevs: refs,
 				mustReject: "accepted-unauthorised:" + class, keys: []int{attacker, k}}
+			if w.authorised(t, k) {
+				o.mustReject, o.class = "", "fork-key-authorised-by-another-controller"
+				o.noTP = strings.HasSuffix(class, "/no-target-prev") // an acceptance that does not name the target forks it
+				x.Class("fork:key-authorised-by-another-controller")
+			}
 			x.Class("offer:" + o.class)
 			w.offer(o)
 		}
